@@ -99,7 +99,8 @@ def run_property(prop, tier, seed, args):
     canary_bad = []
     ncanary_ok = 0
     for i, c in zip(canary_idx, canaries):
-        hit = any(k.endswith("#canary") and a["sat"] > 0 for k, a in c["obs"].items())
+        # a unit is non-vacuous if some path reaches an exit (canary fails there) or already fails an obligation
+        hit = any(a["sat"] > 0 for k, a in c["obs"].items())
         if c["status"] == "ok" and not hit:
             canary_bad.append(all_units[i].name)
         elif hit:
